@@ -7,7 +7,7 @@ Nothing in here knows what the numbers mean; the property module decides which D
 Printed precision (what "equal" means for a printed number; the statement cannot mean more than the digits shown):
   csv   pandas writes the shortest text that round-trips a float  -> equal within TOL_CSV relative (measured 0.0)
   md    tabulate formats floats with '.{N}g', N = --output-significant-digits (default 6); columns that also hold text
-        are printed in full                                         -> |printed - x| <= 0.5 * 10**(1-N) * |x|
+        are printed in full                                         -> |printed - x| <= 0.5 * 10**(1-N) * |x| (+ 4 ulp)
   json  pandas' default double_precision=10: ten DECIMALS (round half up); outside [1e-15, 1e16) exponent form with
         ten significant digits                                      -> |printed - x| <= 0.5e-10 (+ 1e-15 |x|), resp. 0.5e-9 |x|
         non-finite numbers become null.
@@ -28,9 +28,11 @@ import sys
 import numpy as np
 
 TOL_CSV = 1e-12          # relative; worst observed 0.0 (repr round trip), smallest mutant effect > 1e-6
+REL_ITERATIVE = 1e-9     # extra relative slack for the results of iterative analyses (fit, drt); worst observed 0.0
 JSON_ABS = 0.5e-10       # half a unit of the tenth decimal
 JSON_SLACK = 1.001       # the rounding is done in binary floating point
 MD_SLACK = 1.0 + 1e-9
+MD_ULPS = 4.0            # at 15+ requested digits the half-unit bound is as small as the spacing of doubles
 JSON_SIG_DIGITS = 6      # a json number is reported as "short of digits" when it misses min(requested, documented default 6) digits
 
 KNOWN_COLS = {
@@ -234,7 +236,7 @@ def _is_nan(v):
         return False
 
 
-def cmp_cell(raw, v, fmt, osd):
+def cmp_cell(raw, v, fmt, osd, extra_rel=0.0):
     """Compare one printed cell with the API value.  Returns (problem|None, cls, dev, sigloss) where dev is the deviation
     in units of the format's tolerance (csv: relative error) and sigloss is the relative error of a json number (else None)."""
     if isinstance(v, (bool, np.bool_)):
@@ -275,27 +277,27 @@ def cmp_cell(raw, v, fmt, osd):
     err = abs(p - x)
     if fmt == "csv":
         dev = err / abs(x) if x != 0.0 else err
-        ok = dev <= TOL_CSV
+        ok = dev <= TOL_CSV + extra_rel
         return (None if ok else f"printed {raw!r}, API {x!r} (rel. diff {dev:.3g})"), "num", dev, None
     if fmt == "json":
         if x == 0.0 or 1e-15 <= abs(x) < 1e16:
-            tol = JSON_ABS * JSON_SLACK + 1e-15 * abs(x)
+            tol = JSON_ABS * JSON_SLACK + (1e-15 + extra_rel) * abs(x)
         else:  # exponent form, '%.10g': ten significant digits
-            tol = 0.5e-9 * abs(x) * JSON_SLACK
+            tol = (0.5e-9 * JSON_SLACK + extra_rel) * abs(x)
         dev = err / tol
         sig = err / abs(x) if (x != 0.0 and 1e-15 <= abs(x) < 1e16) else 0.0
         return (None if dev <= 1.0 else f"printed {raw!r}, API {x!r} (diff {err:.3g} > ten-decimal rounding)"), "num", dev, sig
     # md
     if isinstance(v, (int, np.integer)):
         return (None if p == x else f"printed {raw!r}, API integer {v!r}"), "int", 0.0 if p == x else math.inf, None
-    tol = 0.5 * 10.0 ** (1 - osd) * abs(x) * MD_SLACK
+    tol = 0.5 * 10.0 ** (1 - osd) * abs(x) * MD_SLACK + (MD_ULPS * 2.220446049250313e-16 + extra_rel) * abs(x)
     if x == 0.0:
         return (None if p == 0.0 else f"printed {raw!r}, API 0.0"), "num", 0.0 if p == 0.0 else math.inf, None
     dev = err / tol
     return (None if dev <= 1.0 else f"printed {raw!r}, API {x!r} (rel. diff {err / abs(x):.3g} > {osd} significant digits)"), "num", dev, None
 
 
-def compare_table(tab, df, osd=6, want_index=False):
+def compare_table(tab, df, osd=6, want_index=False, extra_rel=0.0):
     """Returns dict(problems=[(kind, msg)], n_num, n_text, dev (max, tolerance units), sigloss=[(col,row,printed,api,rel)])."""
     fmt = tab["fmt"]
     out = {"problems": [], "n_num": 0, "n_text": 0, "dev": 0.0, "sigloss": []}
@@ -320,7 +322,7 @@ def compare_table(tab, df, osd=6, want_index=False):
     for ci, c in enumerate(cols):
         col = data[ci]
         for ri in range(n):
-            prob, cls, dev, sig = cmp_cell(tab["rows"][ri][ci], col[ri], fmt, osd)
+            prob, cls, dev, sig = cmp_cell(tab["rows"][ri][ci], col[ri], fmt, osd, extra_rel)
             if cls in ("num", "int"):
                 out["n_num"] += 1
                 if dev != math.inf:
